@@ -16,16 +16,40 @@ Two halves live in this file:
 
   constructs `LabApp` (BaseApplication.__init__ -> do_load_config -> load_default_config + load_config) and
   reports `cfg.settings[name].get()` of EVERY setting in a stable serialisation, or the failure.
-  `run()` is never called: nothing is daemonised, bound, forked or logged; loading only stores values, with
-  one exception that the harness accounts for: `Application.chdir()` does os.chdir(cfg.chdir).
+  `Application.run()` is never called: nothing is daemonised, bound, forked or logged; loading only stores values,
+  with one exception that the harness accounts for: `Application.chdir()` does os.chdir(cfg.chdir).
 
-  A recipe may carry `steps` (a reload history): after the initial load, each step rewrites / removes
-  configuration files and then makes the call the master makes on SIGHUP - `Arbiter.reload()` is
-  `self.app.reload(); self.setup(self.app)`, i.e. the master adopts `app.cfg` if and only if `app.reload()`
-  returns; an exception (SystemExit included) leaves the main loop and ends the master.  The helper plays
-  exactly that part: it calls `app.reload()` (gunicorn.debug.spew stubbed: reload() would install the line
-  tracer when the merged `spew` is true) with the same sys.argv / os.environ / framework dict still in place, and reports per step whether the call returned and, if so, every setting of the adopted `app.cfg`.
-  The history ends at the first reload that does not return.
+  A recipe may carry `steps` (a reload history) or `master: true`.  Then, after the initial load, the helper
+  creates a REAL `gunicorn.arbiter.Arbiter` from the loaded application - `Arbiter.__init__` -> `setup()` adopts
+  `app.cfg` and exports `cfg.env` (the `raw_env` entries) into os.environ exactly as a real master does - and the
+  values reported for the start are those of `arb.cfg`.  Each step rewrites / removes configuration files and then
+  executes the REAL `Arbiter.reload()`, the master's whole answer to SIGHUP: take the old `raw_env` exports out of
+  os.environ, `self.app.reload()` (a new Config, whose `env_orig` is os.environ at that moment), `self.setup()`
+  (adopt `app.cfg`, export the new `raw_env`), `on_reload`, pid file, workers.  Only the outward effects are
+  neutralised, in this helper process only (`_neutralise`):
+
+      Config.logger_class / Config.worker_class   properties returning inert dummy classes (no log file, statsd
+                                                  socket or worker module is touched whatever values a cell uses;
+                                                  the OBSERVED values are cfg.settings[k].get(), which stay real)
+      gunicorn.sock.create_sockets / close_sockets  -> [] / nothing          gunicorn.arbiter.Pidfile -> inert dummy
+      util._setproctitle -> nothing                 gunicorn.debug.spew -> nothing (reload() would install the
+                                                  line tracer when the merged `spew` is true)
+      on the instances: app.wsgi (preload_app), arb.spawn_worker / spawn_workers / manage_workers / kill_workers
+                        -> nothing;  arb.pid = os.getpid() (what Arbiter.start() would have set)
+
+  Hooks given by configuration files (`nworkers_changed`, `on_reload`) run as they are.  `Arbiter.start()` / `run()`
+  are never called: no signal handler, socket, pid file, fork.  The master adopts the new configuration if and only
+  if `Arbiter.reload()` gets as far as `setup()`; per step the helper reports whether the call returned and, if so,
+  every setting of `arb.cfg` (what the master runs with from then on), and which of the variables gunicorn reads itself
+  (GUNICORN_CMD_ARGS, WEB_CONCURRENCY, PORT, FORWARDED_ALLOW_IPS) `arb.cfg.env_orig` - the environment `reexec()`
+  hands to the next master on SIGUSR2 - holds, next to what the server's environment held when the cell began.
+  An exception escaping `Arbiter.reload()` (SystemExit included) leaves the main loop and ends the master: the
+  history ends at the first reload that does not return.  If the Arbiter cannot be CONSTRUCTED from a loaded
+  application the observation carries `harness` (the reason) and the check must report the cell as inconclusive -
+  there is no fallback to a cheaper emulation.
+
+  os.environ is snapshotted when a cell begins and put back when it ends (`raw_env` exports and SERVER_SOFTWARE, which
+  `Arbiter.__init__` sets, do not reach the next cell); sys.argv and the framework dict stay in place for the reloads.
 
   While a cell runs, `Setting.set` is watched (wrapped, the exception passes through unchanged): the helper reports
   which setting's validator rejected a value and with which exception type (`rejected`).  That is an auxiliary
@@ -178,9 +202,78 @@ def _describe():
     return out
 
 
-def _load_one(home, base_path, base_modules, recipe, LabApp):
+OWN_VARIABLES = ("GUNICORN_CMD_ARGS", "WEB_CONCURRENCY", "PORT", "FORWARDED_ALLOW_IPS")   # read by gunicorn itself
+
+
+def _nothing(*a, **k):
+    return None
+
+
+class _InertLog:
+    """Stands in for cfg.logger_class: accepts every call a master makes on its log, touches nothing."""
+
+    def __init__(self, cfg):
+        self.cfg = cfg
+
+    def __getattr__(self, name):
+        if name.startswith("__"):
+            raise AttributeError(name)
+        return _nothing
+
+
+class _InertWorker:
+    """Stands in for cfg.worker_class: never instantiated (spawn_worker is switched off)."""
+
+
+class _InertPidfile:
+    def __init__(self, fname):
+        self.fname = fname
+
+    def create(self, pid):
+        pass
+
+    def rename(self, path):
+        self.fname = path
+
+    def unlink(self):
+        pass
+
+    def validate(self):
+        return None
+
+
+def _neutralise():
+    """Switch the outward effects of a master off, in this helper process (see the module docstring)."""
+    from gunicorn import arbiter as garbiter, config as gconfig, debug, sock, util
+    debug.spew = _nothing
+    gconfig.Config.logger_class = property(lambda self: _InertLog)
+    gconfig.Config.worker_class = property(lambda self: _InertWorker)
+    sock.create_sockets = lambda *a, **k: []
+    sock.close_sockets = _nothing
+    assert garbiter.sock is sock and garbiter.util is util
+    garbiter.Pidfile = _InertPidfile
+    util._setproctitle = _nothing
+    return garbiter.Arbiter
+
+
+def _master(Arbiter, app):
+    """The master of a loaded application, as far as Arbiter.__init__ takes it (adopt cfg, export raw_env)."""
+    app.wsgi = _nothing                           # preload_app: setup() would import the application
+    arb = Arbiter(app)
+    arb.pid = os.getpid()                         # Arbiter.start()
+    for n in ("spawn_worker", "spawn_workers", "manage_workers", "kill_workers", "kill_worker"):
+        setattr(arb, n, _nothing)
+    return arb
+
+
+def _own_variables(env):
+    return {k: env[k] for k in OWN_VARIABLES if k in env}
+
+
+def _load_one(home, base_path, base_modules, recipe, LabApp, Arbiter):
     """One cell: set the sources up, load, observe, clean up."""
     # -- reset everything a previous load may have touched
+    environ_before = dict(os.environ)
     os.chdir(home)
     os.environ["PWD"] = home
     sys.path[:] = list(base_path)
@@ -223,22 +316,36 @@ def _load_one(home, base_path, base_modules, recipe, LabApp):
     try:
         with contextlib.redirect_stderr(err), contextlib.redirect_stdout(out):
             try:
+                server_env = _own_variables(os.environ)
                 app = LabApp(framework)
+                cfg, arb, harness = app.cfg, None, None
+                if recipe.get("steps") or recipe.get("master"):
+                    try:
+                        arb = _master(Arbiter, app)
+                        cfg = arb.cfg
+                    except BaseException as e:      # noqa: B036 - not judged: the check reports it as inconclusive
+                        harness = "no Arbiter for a loaded application: %s: %s" % (type(e).__name__, str(e)[:200])
                 obs = {"ok": True,
-                       "values": {k: ser(s.get()) for k, s in app.cfg.settings.items()},
+                       "values": {k: ser(s.get()) for k, s in cfg.settings.items()},
                        "loaded": list(getattr(sys, MARK, [])), "cwd": os.getcwd(),
                        "rejected": [list(x) for x in REJECTED]}
+                if arb is not None:
+                    obs["server_env"] = server_env
+                    obs["reexec_env"] = _own_variables(arb.cfg.env_orig)
+                if harness:
+                    obs["harness"] = harness
                 if recipe.get("steps"):
                     obs["steps"] = []
-                for step in recipe.get("steps", []):
-                    # the master's part of a SIGHUP: app.reload(); on return, adopt app.cfg (Arbiter.setup)
+                for step in (recipe.get("steps", []) if arb is not None else []):
+                    # SIGHUP: the master calls self.reload() from its main loop
                     setattr(sys, MARK, [])
                     del REJECTED[:]
                     put(step.get("files", {}))
                     try:
-                        app.reload()
+                        arb.reload()
                         so = {"returned": True,
-                              "values": {k: ser(s.get()) for k, s in app.cfg.settings.items()}}
+                              "values": {k: ser(s.get()) for k, s in arb.cfg.settings.items()},
+                              "reexec_env": _own_variables(arb.cfg.env_orig)}
                     except SystemExit as e:
                         so = {"returned": False, "exc": "SystemExit",
                               "code": e.code if isinstance(e.code, int) or e.code is None else 1}
@@ -258,6 +365,8 @@ def _load_one(home, base_path, base_modules, recipe, LabApp):
     finally:
         sys.argv = old_argv
         os.chdir(home)
+        os.environ.clear()                       # raw_env exports, SERVER_SOFTWARE, GUNICORN_CMD_ARGS of this cell
+        os.environ.update(environ_before)
         for path in written:
             try:
                 os.unlink(path)
@@ -284,10 +393,10 @@ def _helper_main(mode, home):
         res = _describe()
     else:
         from gunicorn.app.wsgiapp import WSGIApplication
-        from gunicorn import debug
         # BaseApplication.reload() ends with `if self.cfg.spew: debug.spew()`, which installs a sys.settrace
-        # hook printing every executed line: an effect of the setting, not part of the merge - switched off
-        debug.spew = lambda *a, **k: None
+        # hook printing every executed line: an effect of the setting, not part of the merge - switched off,
+        # like everything else a master does to the outside world
+        Arbiter = _neutralise()
         from gunicorn import config as gconfig
         plain_set = gconfig.Setting.set
 
@@ -313,7 +422,7 @@ def _helper_main(mode, home):
 
         base_path = list(sys.path)
         base_modules = set(sys.modules)
-        res = [_load_one(home, base_path, base_modules, r, LabApp) for r in payload["recipes"]]
+        res = [_load_one(home, base_path, base_modules, r, LabApp, Arbiter) for r in payload["recipes"]]
     sys.stdout.write("\n" + json.dumps(res) + "\n")
     sys.stdout.flush()
     return 0
